@@ -16,6 +16,7 @@ from common import log
 
 PID = "C06"
 from c06_hostile import HOSTILE  # noqa: E402
+import c06_extreme  # noqa: E402
 
 
 def work(n):
@@ -101,6 +102,8 @@ DEATH = {
     "padStart-huge": "'x'.padStart(2 ** 33, 'ab').length",
     "array-from-huge": "Array.from({length: 2 ** 31}).length",
     "join-huge": "new Array(2 ** 28).join('abcdefgh').length",
+    "length-set-huge": "const x = [1, 2, 3]; x.length = 2 ** 32 - 1; x.length",
+    "length-set-infinity": "const x = [1, 2, 3]; x.length = Infinity; x.length",
 }
 ALIVE = {
     "deep-plain-recursion": ("function f(n) { return n === 0 ? 0 : 1 + f(n - 1); } f(20000)", "num:40d3880000000000"),
@@ -194,6 +197,19 @@ def run(chk):
                            "observed": {x: v.get(x) for x in ("status", "class", "message", "exit")},
                            "what": "a callback that mutates the object its calling native is working on took the host down "
                                    "(panic or process death) instead of producing a value or a catchable exception"})
+    # stream X: conversion-edge arguments in every size/index/count position; the host must survive
+    xprogs = [("X:" + k, "path=/m.ts steps=20000000", src) for k, src in c06_extreme.programs()]
+    xres = common.run_programs(chk.th, xprogs, tag="c06x", timeout=900, per_program_timeout=120, mem_limit=6_000_000_000)
+    stats["extreme"] = 0
+    for name, _, src in xprogs:
+        v = xres.get(name, {})
+        stats["programs"] += 1
+        stats["extreme"] += 1
+        if v.get("status") not in ("complete", "error", "steplimit"):
+            chk.violation({"probe": name[2:], "program": src,
+                           "observed": {x: v.get(x) for x in ("status", "class", "message", "exit")},
+                           "what": "an argument at the edge of a numeric conversion (infinity, NaN, 2**31, 2**53, 1e21) took the host "
+                                   "down (arithmetic overflow or capacity panic) instead of producing a value or a catchable exception"})
     # what the model only locates: process deaths through re-entry and unchecked allocation sizes
     dprogs = [("D:" + k, "path=/m.ts steps=200000000", src) for k, src in DEATH.items()]
     dres = common.run_programs(chk.th, dprogs, tag="c06c", timeout=900, per_program_timeout=300, mem_limit=6_000_000_000)
@@ -229,6 +245,7 @@ def run(chk):
                 "in a memory-limited worker; hook counters compared with the model's prediction" % (
                     len(paths(1)[0]), len(paths(1)[1]), list(sizes)),
         "hostile_callback_programs": stats.get("hostile", 0),
+        "extreme_argument_programs": stats.get("extreme", 0),
         "trampolined_paths_checked": stats["trampolined_checked"], "reentering_paths_checked": stats["reentering_checked"],
         "worker_deaths_observed": deaths,
     })
